@@ -42,7 +42,18 @@ if __name__ == '__main__' and '--fuzz' in sys.argv:
     try:
         import atheris as _ATHERIS
 
-        with _ATHERIS.instrument_imports(include=['bumble'], enable_loader_override=False):
+        # only the modules the target parses with (instrumenting all of bumble costs more than the fuzzing)
+        _t = sys.argv[sys.argv.index('--fuzz') + 1] if sys.argv.index('--fuzz') + 1 < len(sys.argv) else ''
+        _mods = {
+            'l2cap_control': ['bumble.l2cap', 'bumble.hci'], 'att_pdu': ['bumble.att', 'bumble.hci'],
+            'smp_command': ['bumble.smp', 'bumble.hci'], 'sdp_data_element': ['bumble.sdp', 'bumble.core'],
+            'sdp_pdu': ['bumble.sdp', 'bumble.core'], 'rfcomm_frame': ['bumble.rfcomm'], 'rfcomm_mcc': ['bumble.rfcomm'],
+            'at_parameters': ['bumble.at'], 'hci_packet': ['bumble.hci'], 'advertising_data': ['bumble.core'],
+            'avc_frame': ['bumble.avc'], 'avdtp_assembler': ['bumble.avdtp', 'bumble.a2dp'],
+            'avctp_assembler': ['bumble.avctp'], 'at_reader_ag': ['bumble.hfp', 'bumble.at'],
+            'at_reader_hf': ['bumble.hfp', 'bumble.at'],
+        }.get(_t, ['bumble'])
+        with _ATHERIS.instrument_imports(include=_mods, enable_loader_override=False):
             from bumble import (a2dp, at, att, avc, avctp, avdtp, avrcp, core, gatt, hci, hfp, l2cap, rfcomm,  # noqa: F401
                                 sdp, smp)
     except Exception as _e:  # noqa: BLE001 - reported through the result file
@@ -72,12 +83,11 @@ ASSUMPTIONS = [
     '"terminates promptly" = at most CAP interpreter events (sys.monitoring LINE+JUMP) while the virtual loop '
     'processes one injected frame to quiescence; CAP is 5 M and asserted to be >= 50x the most expensive '
     'well-formed frame measured at start-up; a hit is re-run with 10x CAP and only a second hit is a violation',
-    'a valid disconnect = HCI Disconnection Complete (status 0) for the handle, an L2CAP Disconnection Request '
-    'naming the victim-side CID of the channel, an FCS-valid RFCOMM DISC/DM frame; after one, the reference '
+    'a valid disconnect = HCI Disconnection Complete (status 0) for the handle, a Connection Complete / LE '
+    '(Enhanced) Connection Complete with status 0 that re-announces the same handle (the controller replaces the '
+    'connection), an L2CAP Disconnection Request naming the victim-side CID of the channel (Bumble ignores its '
+    'length and source CID, so does the classification), an RFCOMM DISC/DM frame; after one, the reference '
     'requests that need the closed object are skipped (both outcomes accepted)',
-    'RFCOMM frames that validly renegotiate or throttle a DLC (PN command, MSC with FC, aggregate flow control) '
-    'are kept out of the raw RFCOMM generator unless their FCS is broken: what a peer may validly demand with '
-    'them is not "hostile bytes" and the property leaves the outcome open',
     'the reference request on a byte stream (AT) is preceded by one complete well-formed command whose answer '
     'is ignored, so that a hostile unterminated line is terminated before the judged request starts',
     'on an LE CoC the reference SDU is only judged when the hostile frames left the channel at an SDU boundary '
@@ -131,6 +141,7 @@ class Meter:
         self.trip_site = ''
         self.loop = None
         self.active = False
+        self.keep_on = False  # fuzz subprocess: toggling the events per input costs more than the parsing
 
     def install(self):
         if self.tool is not None:
@@ -165,14 +176,16 @@ class Meter:
         self.tripped = False
         self.trip_site = ''
         self.loop = loop
-        self.active = True
-        ev = self.mon.events
-        self.mon.set_events(self.tool, ev.LINE | ev.JUMP)
+        if not self.active:
+            self.active = True
+            ev = self.mon.events
+            self.mon.set_events(self.tool, ev.LINE | ev.JUMP)
 
     def stop(self) -> int:
-        if self.active:
+        if self.active and not self.keep_on:
             self.mon.set_events(self.tool, 0)
             self.active = False
+        self.cap = 1 << 62  # (keep_on: events keep coming, never trip outside a window)
         self.loop = None
         return self.n
 
@@ -801,8 +814,9 @@ def ref_athf(rig: Rig):
             return None
         return ('unsolicited_lost', f'a well-formed unsolicited +VGS: 9 no longer produces the speaker_volume event '
                                     f'(main routine finished: {rig.state["hf_task"].done()})')
-    return ('no_answer', f'HfProtocol.execute_command: the gateway answered OK but the command ended with {result.get(1)!r} '
-                         f'(first attempt {result.get(0)!r})')
+    outcome = 'no_answer' if isinstance(result.get(1), (asyncio.TimeoutError, TimeoutError)) else 'wrong_answer'
+    return (outcome, f'HfProtocol.execute_command: the gateway answered OK but the command ended with {result.get(1)!r} '
+                     f'(first attempt {result.get(0)!r})')
 
 
 BUILDERS = {'le': build_le, 'classic': build_classic}
@@ -1392,6 +1406,14 @@ def closing_effects(rig: Rig, frames) -> set:
         if chan == 'hci' and len(data) >= 7 and data[0] == 4 and data[1] == 5 and data[3] == 0 \
                 and (struct.unpack_from('<H', data, 4)[0] & 0x0FFF) == (vh & 0x0FFF):
             closed.add('link')
+        # a (LE / enhanced / classic) Connection Complete with status 0 that re-announces the SAME handle: the
+        # controller validly declares a new connection in place of the old one
+        if chan == 'hci' and len(data) >= 7 and data[0] == 4:
+            if data[1] == 0x03 and data[3] == 0 and (struct.unpack_from('<H', data, 4)[0] & 0x0FFF) == (vh & 0x0FFF):
+                closed.add('link')
+            if data[1] == 0x3E and data[3] in (0x01, 0x0A, 0x29) and data[4] == 0 \
+                    and (struct.unpack_from('<H', data, 5)[0] & 0x0FFF) == (vh & 0x0FFF):
+                closed.add('link')
         for name, c in rig.chans.items():
             if 'channel' not in c and name != 'coc':
                 continue
@@ -1926,6 +1948,7 @@ def fuzz_main(argv) -> int:
         return 0
     B()
     flush()
+    METER.keep_on = True
     stateful = target in STATEFUL_PARSERS
 
     def one(data: bytes):
@@ -1942,16 +1965,16 @@ def fuzz_main(argv) -> int:
             flush()
 
     atheris.Setup([sys.argv[0], args.corpus, f'-runs={args.runs}', f'-seed={args.seed}', f'-max_len={args.max_len}',
-                   '-verbosity=' + os.environ.get('C17_FUZZ_VERBOSE', '0'), '-print_final_stats=0', '-close_fd_mask=' + ('0' if os.environ.get('C17_FUZZ_VERBOSE') else '3'), '-timeout=120', '-rss_limit_mb=4096'], one)
+                   '-verbosity=' + os.environ.get('C17_FUZZ_VERBOSE', '0'), '-print_final_stats=0', '-close_fd_mask=' + ('0' if os.environ.get('C17_FUZZ_VERBOSE') else '3'), '-timeout=120', '-rss_limit_mb=4096', '-max_total_time=90'], one)
     atheris.Fuzz()
     return 0
 
 
 def run_atheris(ctx) -> None:
     """Thorough tier: every shard fuzzes the targets i % nshards == shard."""
-    runs = 60000
     mine = [t for i, t in enumerate(PARSER_TARGETS) if i % ctx.nshards == ctx.shard]
     for target in mine:
+        runs = 40000 if target in STATEFUL_PARSERS else 150000
         if ctx.out_of_time():
             ctx.label('budget_hit:atheris')
             return
@@ -1968,7 +1991,7 @@ def run_atheris(ctx) -> None:
                '--seed', str(ctx.subseed('atheris/' + target) or 1), '--out', out, '--corpus', corpus]
         try:
             proc = subprocess.run(cmd, env=env, cwd=os.path.dirname(os.path.dirname(os.path.abspath(__file__))),
-                                  stdout=subprocess.DEVNULL, stderr=subprocess.DEVNULL, timeout=240)
+                                  stdout=subprocess.DEVNULL, stderr=subprocess.DEVNULL, timeout=220)
             rc = proc.returncode
         except subprocess.TimeoutExpired:
             rc = 'timeout'
@@ -2028,12 +2051,31 @@ def run(ctx) -> None:
     for kind, opens, name, r in _CALIB.get('untouched_failures', []):
         ctx.fail(f'ref/{name}/{r[0]}/after_{kind}_none', f'with no hostile frame at all: {r[1]}',
                  {'kind': 'world', 'world': kind, 'target': 'none', 'open': opens, 'frames': []})
-    ctx.hyp('world', lambda c: run_world_case(ctx, c), case_strategy(), max_examples=ctx.n(1300, 120000))
-    for i, target in enumerate(PARSER_TARGETS):
-        ctx.hyp(f'parser/{target}', lambda p, target=target: run_parser_case(ctx, target, p), parser_strategy(target),
-                max_examples=ctx.n(200, 48000))
     if not ctx.quick:
+        # keep the whole thorough shard within ~10 minutes whatever the machine load (cases are then cut short and
+        # the 'budget_hit:*' labels say so)
+        ctx.budget_s = min(ctx.budget_s, 480.0)
         run_atheris(ctx)
+    # batches, so that an exhausted time budget stops the generation (each batch has its own derived seed)
+    total, batch, k = ctx.n(1100, 120000), ctx.pick(1100, 500), 0
+    world_share = 0.7
+    strategy = case_strategy()
+    while total > 0 and not (not ctx.quick and ctx.time_left() < ctx.budget_s * (1 - world_share)):
+        ctx.hyp(f'world/{k}', lambda c: run_world_case(ctx, c), strategy, max_examples=min(batch, total))
+        total -= batch
+        k += 1
+    if total > 0:
+        ctx.labels['budget_hit:world'] += total
+    total, batch, k = ctx.n(200, 48000), ctx.pick(200, 400), 0
+    strategies = {t: parser_strategy(t) for t in PARSER_TARGETS}
+    while total > 0 and not ctx.out_of_time():
+        for target in PARSER_TARGETS:
+            ctx.hyp(f'parser/{target}/{k}', lambda p, target=target: run_parser_case(ctx, target, p), strategies[target],
+                    max_examples=min(batch, total))
+        total -= batch
+        k += 1
+    if total > 0:
+        ctx.labels['budget_hit:parser'] += total
     for kind, targets in (('le', LE_TARGETS), ('classic', CLASSIC_TARGETS)):
         for t in targets:
             ctx.floor(f'target:{kind}/{t}', 8)
